@@ -100,6 +100,14 @@ def evaluate(args):
     if obs['image'] != want:
         return {'m': f'"{line}" emits {obs["image"][:-1].hex() if obs["image"].endswith(bytes([0xee])) else obs["image"].hex() + " (incl. what follows)"}, '
                      f'described bytes {bytes(e["b"]).hex()}', 'case': case}
+    if len(e['b']) >= 2 and idx % 2 == 0:
+        # an image window that begins inside the directive's bytes shows the rest of them (fill 0xA5 outside)
+        k = 1 + idx % (len(e['b']) - 1)
+        case2 = dict(case, start=case['start'] + k, fill=0xA5)
+        obs2 = runner.run_case(case2)
+        if obs2['status'] != 'ok' or obs2['image'] != want[k:]:
+            return {'m': f'"{line}" seen through a window that starts {k} byte(s) into it: {obs2["image"].hex()[:60] if obs2.get("image") is not None else obs2["status"]}, '
+                         f'described bytes {want[k:].hex()[:60]}', 'case': case2}
     return None
 
 
